@@ -434,6 +434,10 @@ func c08Run(w *run.Worker) {
 	var offs []off
 	offs = append(offs, off{"unknown-function", func() *rt.Node { return rt.Call("nosuch") }})
 	offs = append(offs, off{"unknown-function", func() *rt.Node { return rt.Call("nosuch", I(1), Id("x")) }})
+	// names are case-sensitive: these are not the registered len / add_key / uppercase
+	offs = append(offs, off{"unknown-function-by-case", func() *rt.Node { return rt.Call("LEN", Id("x")) }})
+	offs = append(offs, off{"unknown-function-by-case", func() *rt.Node { return rt.Call("Add_Key", Id("k"), I(1)) }})
+	offs = append(offs, off{"unknown-function-by-case", func() *rt.Node { return rt.Call("upperCase", Id("k")) }})
 	for _, r := range rules {
 		for _, o := range r.offenders() {
 			offs = append(offs, off{"bad-" + r.Name, o})
@@ -489,6 +493,8 @@ func c08Run(w *run.Worker) {
 		v2offs := []off{
 			{"unknown-function", func() *rt.Node { return rt.Call("nosuch") }},
 			{"unknown-function", func() *rt.Node { return rt.Call("add_key", Id("k"), I(1)) }},
+			{"unknown-function-by-case", func() *rt.Node { return rt.Call("ID", I(1)) }},
+			{"unknown-function-by-case", func() *rt.Node { return rt.Call("camelid", I(1)) }},
 			{"missing-argument", func() *rt.Node { return rt.Call("id") }},
 			{"surplus-argument", func() *rt.Node { return rt.Call("id", I(1), I(2)) }},
 			{"unknown-named-argument", func() *rt.Node { return rt.Call("id", rt.Named("zz", I(1))) }},
@@ -513,6 +519,7 @@ func c08Run(w *run.Worker) {
 			func() *rt.Node { return rt.Call("id", I(1)) }, func() *rt.Node { return rt.Call("id", rt.Named("x", I(1))) },
 			func() *rt.Node { return rt.Call("one") }, func() *rt.Node { return rt.Call("p") }, func() *rt.Node { return rt.Call("p", I(1), I(2), I(3)) },
 			func() *rt.Node { return rt.Call("void", rt.Call("two")) },
+			func() *rt.Node { return rt.Call("camelId", I(1)) },
 		} {
 			if !w.Take() {
 				continue
